@@ -9,9 +9,41 @@ from props._util import rng_for
 
 LEVEL = "other"
 DEDUCTIVE = [{"module": "rnapolis.transformer", "sidecar": "contracts.transformer_c", "targets": ["copy_from_to", "replace_value", "main"]}]
-TRUSTED = ["mmcif IoAdapterPy reader/writer (also used as the oracle's reader)", "CPython 3.12"]
-ASSUMPTIONS = ["the mmcif library's reader is trusted to report categories/items/rows of a document"]
-EXPLANATION = "see DESIGN.md 4/C20"
+TRUSTED = [
+    "CPython 3.12 as encoded by pyvc (incl. list objects with identity: item-name list, attribute list, row list and rows are heap objects, so the aliasing through getAttributeList()/getRowList() is modelled, not assumed away)",
+    "mmcif IoAdapterPy.readFile (contracts.transformer_c.ext_readFile): returns new, pairwise different container/category/list/row objects holding parse(text); category names in a container are pairwise different and each is a catalog key",
+    "mmcif IoAdapterPy.writeFile + reading the file back (ext_writeFile): the text is render(W), W = the document read off the containers by walking the name list and the catalog; it depends on nothing else (in particular not on DataCategory's cached attribute count/catalog, which the in-place append leaves stale) - also used by the bounded oracle",
+    "mmcif DataContainer.getObjNameList/getObj/replace and DataCategory.getAttributeList/getRowList/DataCategory(...) (ext_getObjNameList, ext_getObj, ext_replace, ext_getAttributeList, ext_getRowList, ext_DataCategory): accessors return the internal list objects; the constructor deep-copies; replace(obj) acts only if obj.getName() is a catalog key, which a DataCategory object passed as the name never is (checked natively: for transformer.py replace() is a no-op)",
+    "tempfile.NamedTemporaryFile(mode=text) and builtins.open(path, 'r'|'w') file objects: write/seek(0)/read/__enter__/__exit__ over a ghost file system (ext_NamedTemporaryFile, ext_open, ext_tf_*)",
+    "argparse.ArgumentParser()/add_argument(name, help=)/parse_args()/print_help() (ext_ArgumentParser, ext_add_argument, ext_parse_args, ext_print_help): destinations derived from the add_argument calls; positional -> str, optional -> str or None; values = cli_* constants",
+]
+ASSUMPTIONS = [
+    "parse(text) / render(document) are uninterpreted: what the mmcif tokenizer/writer do at text level (quoting, multi-word and '?'/'.' values) is not decided deductively - the bounded check reads results back through the same library",
+    "text-mode temp-file I/O is transparent: the reader sees exactly the string written and flushed by seek(0), f.read() returns exactly what writeFile wrote (UTF-8-encodable content, no newline translation)",
+    "definition ndist_definition (contracts.transformer_c LEMMAS): ndist(D,k,i,n) = number of different values among the first n cells of the item, by recursion on n",
+    "definition firstpos_definition: firstpos(D,k,i,x) = least row of the item holding x (least-number principle); only used as the explicit witness in 'mapping keys are old values'",
+    "requires wellformed(parse(file_content)): item names of a category pairwise different and every row has one cell per item (the reader itself can return short rows for a truncated loop)",
+    "requires enough_values: ndist(prefix) <= len(values) for EVERY prefix of the rows - equivalent to len(values) >= number of distinct values because ndist is monotone in n (monotonicity itself is not proved); IndexError is excluded under it (raises = [])",
+    "heap frame: the contents of pre-existing StrList/RowList/Row model objects are in `modifies` (no such object can be passed in - the parameters are strings; 'everything else untouched' is proved on the written document, clause other-categories-untouched)",
+    "main: requires --category given (cli_has_category) and wellformed/enough_values for the input file's content; the ghost file system is not threaded through the two callee contracts, i.e. the library calls are assumed to leave files other than their own temporary files unchanged",
+    "main uses the callee contracts copy_from_to@cli / replace_value@cli: the proved contracts with extra preconditions (the data-flow obligations) and only ghost-definition postconditions, hence implied by the proved ones",
+]
+EXPLANATION = (
+    "Deductive (pyvc, real source, contracts/transformer_c.py). copy_from_to [168 obligations] over the abstract document "
+    "P = parse(file_content), W = document handed to writeFile: (0) category or source item missing (incl. empty file) => the input string is returned; "
+    "(1) otherwise result == render(W); (2) W has the same blocks and categories in the same order; (3) every other category of every block keeps items, "
+    "row count/order/lengths and all cells; (4) items of the category unchanged except ONE appended target item when it was absent; (5) same row count, every "
+    "row has one cell per item (+1 for a new item); (6) all non-target cells kept; (7) target cell == source cell of the same input row. Safety: no IndexError/"
+    "ValueError/AttributeError. replace_value [150]: (0) missing => (input, empty mapping); (1)-(3) as above; (4) items and row shape kept; (5) other cells kept; "
+    "(6) every old value is a key and the new cell is its image under the RETURNED mapping; (7) every key is an old value (witness row firstpos); (8) first-seen: a "
+    "value first seen in row r maps to values[ndist(r)] (= number of distinct values before) and len(mapping) == number of distinct values; (9) injective when the "
+    "characters of `values` are distinct. The proofs go through the aliasing of the attribute list and the in-place mutated rows: data[0].replace(DataCategory("
+    "category_obj, ...)) is modelled faithfully and is a no-op (object passed as name); a variant passing the category NAME (effective replace) also verifies. "
+    "main [71]: call-site obligations call[..]->copy_from_to.requires.1-4 / replace_value.requires.2-5 = the first argument of the library call is the CONTENT of "
+    "the file named args.input and the others are the command-line values; arg-not-None obligations; ensures: in copy/replace mode the text of the file written "
+    "at args.output is the library's (first) string result, otherwise nothing is written; writing a tuple is safe.no_TypeError[f.write(output)]. "
+    "Bounded only: text-level behaviour of the mmcif reader/writer (generated documents with quoted / multi-word / '?' / '.' values, corpus files) and the end-to-end "
+    "CLI subprocess runs.")
 VALUES = "".join(c for c in string.printable if c not in string.whitespace)
 
 
